@@ -1,4 +1,5 @@
 import Sop.Model.JsonPatch
+import Sop.Model.StoreInfoHistory
 import Sop.Driver.Util
 /-! Line-protocol driver for C13 (`Sop/Model/JsonPatch.lean`). Strings travel as hex of their UTF-8 bytes. -/
 namespace Sop.Driver.C13
@@ -89,6 +90,87 @@ def storeInfoOf (ws : List String) : Option StoreInfo :=
 structure St where
   cfg : Option StoreInfo := none
   file : List Char := []
+  /-- history cases (`hist`): files + shared cache + ghost, and the store names in the order they were added -/
+  hist : Sop.SIHist.H := ⟨fun _ => {}, fun _ => 0⟩
+  names : List String := []
+
+/-! ### history cases: `Sop.Model.StoreInfoHistory` over the `Update` model `Sop.Model.StoreInfoCache` -/
+section Hist
+open Sop.SICache Sop.SIHist
+
+def showRec : Option Rec → String
+  | none => "none"
+  | some r => s!"{r.count},{r.ts},{r.info}"
+
+/-- every store's file and cache entry -/
+def showState (names : List String) (s : Sop.SICache.St) : String :=
+  " ".intercalate (names.map fun n => s!"{n}={showRec (s n).disk}/{showRec (s n).cache}")
+
+def showDisk (names : List String) (s : Sop.SICache.St) : String :=
+  " ".intercalate (names.map fun n => s!"{n}={showRec (s n).disk}")
+
+/-- flags: `s` NeedsMetaDataSave; `u` the file is unreadable and unwritable during the call (a directory in its place);
+`r` the file is readable but not writable; `e` the cache entry is evicted right before the forward pass reads it;
+`v` … right before the undo pass reads it -/
+def updOf (w : String) : Option Upd :=
+  match w.splitOn ":" with
+  | [n, d, t, i, fl] =>
+    match d.toInt?, t.toNat?, i.toNat? with
+    | some d, some t, some i =>
+      let has (c : Char) := fl.toList.contains c
+      let fwd : Flt :=
+        if has 'u' then { evict := has 'e', getErr := true, fastRead := true, fastWrite := .before, fullWrite := .before }
+        else if has 'r' then { evict := has 'e', fastWrite := .before, fullWrite := .before }
+        else { evict := has 'e' }
+      some { name := n, delta := d, ts := t, info := i, needsSave := has 's', fwd := fwd, und := { evict := has 'v' } }
+    | _, _, _ => none
+  | _ => none
+
+def showRes : Res → String
+  | .ok => "ok" | .okNil => "oknil" | .err => "err"
+
+/-- `SICache.St` is a function; every `set` wraps it in one more closure. Rebuild it from the evaluated cells of the
+known stores after every line, so that a lookup never walks the history of the case (same function on every name). -/
+def norm (names : List String) (h : H) : H :=
+  let cells := names.map fun n => (n, h.s n)
+  let comm := names.map fun n => (n, h.committed n)
+  ⟨fun m => (cells.lookup m).getD {}, fun m => (comm.lookup m).getD 0⟩
+
+def histStep0 (st : St) (ws : List String) : Option (St × String) :=
+  match ws with
+  | ["hadd", n, c, t, i] =>
+    match c.toInt?, t.toNat?, i.toNat? with
+    | some c, some t, some i =>
+      some ({ st with hist := { st.hist with s := st.hist.s.add n ⟨c, t, i⟩ }, names := st.names ++ [n] }, "ok")
+    | _, _, _ => none
+  | "hupd" :: specs =>
+    match allSome (specs.map updOf) with
+    | some l =>
+      let r := st.hist.step update (.commit l)
+      some ({ st with hist := r.1 }, s!"{(r.2.map showRes).getD "-"} {showDisk st.names r.1.s}")
+    | none => none
+  -- the in-memory L2 cache evicts entries on its own (tiny shards): the harness reports which entries are present
+  -- (one bit per store, in the order the stores were added); the model evicts the others. An entry the model does
+  -- not have cannot be present.
+  | ["hsync", bits] =>
+    let pairs := st.names.zip bits.toList
+    let unexpected := pairs.filter fun (n, b) => b == '1' && (st.hist.s n).cache.isNone
+    let h' := pairs.foldl (fun (h : H) (n, b) => if b == '0' then (h.step update (.evict n)).1 else h) st.hist
+    some ({ st with hist := h' },
+      if unexpected.isEmpty then "ok" else "unexpected-entry:" ++ ",".intercalate (unexpected.map (·.1)))
+  | ["hcache"] => some (st, " ".intercalate (st.names.map fun n => s!"{n}={showRec (st.hist.s n).cache}"))
+  | ["hget", n] =>
+    let v := (st.hist.s.read n).2
+    some ({ st with hist := (st.hist.step update (.read n)).1 }, showRec v)
+  | ["hevict", n] => some ({ st with hist := (st.hist.step update (.evict n)).1 }, "ok")
+  | ["hcold"] => some (st, showDisk st.names st.hist.s)
+  | _ => none
+
+def histStep (st : St) (ws : List String) : Option (St × String) :=
+  match histStep0 st ws with
+  | some (st', out) => some ({ st' with hist := norm st'.names st'.hist }, out)
+  | none => none
+end Hist
 
 def showFile (o : Option (List Char)) : String :=
   match o with
@@ -96,6 +178,9 @@ def showFile (o : Option (List Char)) : String :=
   | none => "err"
 
 def step (st : St) (ws : List String) : St × String :=
+  match histStep st ws with
+  | some r => r
+  | none =>
   match ws with
   | "enc" :: rest =>
     match storeInfoOf rest with
